@@ -171,6 +171,10 @@ func (r *RollingPercentile) AddDuration(d time.Duration, now time.Time) {
 		return
 	}
 	idx := r.rollingBucket.Advance(now, r.clearBucket)
+	if idx < 0 {
+		// before the start of the buckets, or older than the rolling window: ignore it
+		return
+	}
 	r.buckets[idx].addDuration(d)
 }
 
